@@ -330,3 +330,73 @@ func (o *Oracle) SelfTest() error {
 	}
 	return nil
 }
+
+// GlPermInv inverts the Goldilocks Poseidon permutation (the schedule run backwards: inverse MDS layer by Gaussian elimination,
+// inverse S-box x^(1/d), round constants subtracted).  Used to find an input whose output has a chosen element, e.g. a small one.
+func (o *Oracle) GlPermInv(out []*big.Int) []*big.Int {
+	st := make([]*big.Int, 12)
+	for i := range st {
+		st[i] = gf.Mod(out[i])
+	}
+	pm1 := new(big.Int).Sub(gf.P, big.NewInt(1))
+	for k := len(o.GlSched) - 1; k >= 0; k-- {
+		op := o.GlSched[k]
+		switch op.Op {
+		case "ARK":
+			for i := 0; i < op.N; i++ {
+				st[i] = gf.Sub(st[i], o.GlRC[op.Base+i])
+			}
+		case "SBOX_FULL", "SBOX_FIRST":
+			e := new(big.Int).ModInverse(big.NewInt(int64(op.Deg)), pm1)
+			for i := 0; i < op.N; i++ {
+				st[i] = gf.Exp(st[i], e)
+			}
+		case "MDS":
+			// M[r][c]: out[r] = sum_i st[(i+r)%12] circ[i] + st[r] diag[r]
+			m := make([][]*big.Int, 12)
+			for r := 0; r < 12; r++ {
+				m[r] = make([]*big.Int, 13)
+				for c := 0; c < 13; c++ {
+					m[r][c] = new(big.Int)
+				}
+				for i := 0; i < 12; i++ {
+					c := (i + r) % 12
+					m[r][c] = gf.Add(m[r][c], o.GlCirc[i])
+				}
+				m[r][r] = gf.Add(m[r][r], o.GlDiag[r])
+				m[r][12] = new(big.Int).Set(st[r])
+			}
+			for col := 0; col < 12; col++ {
+				piv := -1
+				for r := col; r < 12; r++ {
+					if m[r][col].Sign() != 0 {
+						piv = r
+						break
+					}
+				}
+				if piv < 0 {
+					panic("GlPermInv: singular MDS matrix")
+				}
+				m[col], m[piv] = m[piv], m[col]
+				inv := gf.Inv(m[col][col])
+				for c := col; c < 13; c++ {
+					m[col][c] = gf.Mul(m[col][c], inv)
+				}
+				for r := 0; r < 12; r++ {
+					if r != col && m[r][col].Sign() != 0 {
+						f := new(big.Int).Set(m[r][col])
+						for c := col; c < 13; c++ {
+							m[r][c] = gf.Sub(m[r][c], gf.Mul(f, m[col][c]))
+						}
+					}
+				}
+			}
+			for r := 0; r < 12; r++ {
+				st[r] = m[r][12]
+			}
+		default:
+			panic("GlPermInv: unknown op " + op.Op)
+		}
+	}
+	return st
+}
